@@ -1,8 +1,10 @@
 (** C19 for MultiProgress frames: the row counter of the multi draw target along every history of
     the system model (Sys.step), by combining "every attempted multi draw is one draw_to_term call"
     (MultiProofs.ms_draw_unfold / C02_frame) with the per-draw row count
-    (TermBottomProofs.draw_to_term_count).  No terminal semantics is needed; no I/O failures
-    ([SingleBar.nofail]: a failed draw leaves last_line_count as LineAdjust::Clear inflated it).
+    (TermBottomProofs.draw_to_term_count).  No terminal semantics is needed.  The ghost and erase-count
+    sections are stated without I/O failures ([SingleBar.nofail]); the bound [multi_rows_le_H]
+    (Section RowsH) holds for EVERY fault oracle: a failed draw leaves the count capped at H
+    (Sys.term_draw, fix 7d42cff).
 
     [act_shift] / [op_shift] / [hist_shift]: the padding rows ([shift], 0 under Top alignment)
     counted by the LAST attempted draw_to_term call on the multi target (ghost, computed from the
@@ -732,50 +734,124 @@ End EraseCount.
    (a draw carrying text lines is never refused by the limiter), LineAdjust::Keep only lowers it. *)
 Section RowsH.
   Variable W H : N.
+  (** ANY fault oracle: [fails k] = the k-th fallible terminal call fails *)
+  Variable fails : N -> bool.
+
+  (** after fix 7d42cff EVERY draw leaves last_line_count <= H, under either alignment, ALSO when a
+      terminal call of the draw fails: the code caps `*bar_count` in place before its first fallible
+      call (Sys.term_draw: [N.min (tt_n t) H] after a failed draw) *)
+  Lemma term_draw_le_f tg ls c : tt_n (fst4 (term_draw W H fails tg ls c)) <= H.
+  Proof.
+    unfold term_draw, fst4.
+    pose proof (draw_rows_bounded_bottom W H ls (tt_n tg) (tt_below tg)) as Hb.
+    pose proof (SingleBarProofs.draw_rows_bounded W H ls (tt_n tg) (tt_below tg)) as Ht.
+    cbv zeta in Hb, Ht.
+    destruct (tt_align tg).
+    - destruct (draw_to_term ls (tt_n tg) Top (tt_below tg) W H) as [[ops n'] below'].
+      destruct (emit fails c ops) as [[e c'] [|]]; cbn [fst snd tt_n] in *; lia.
+    - destruct (draw_to_term ls (tt_n tg) Bottom (tt_below tg) W H) as [[ops n'] below'].
+      destruct (emit fails c ops) as [[e c'] [|]]; cbn [fst snd tt_n] in *; lia.
+  Qed.
+
+  Lemma ms_clear_le_f m c : target_n (ms_target m) <= H ->
+    target_n (ms_target (fst4 (ms_clear W H fails m c))) <= H.
+  Proof.
+    intros Hn. unfold ms_clear. destruct (ms_target m) as [|tg|i] eqn:Ht.
+    - unfold fst4; cbn [fst]. now rewrite Ht.
+    - pose proof (term_draw_le_f (tt_adjust_clear tg (ms_zombie_lines m)) [] c) as Tn. unfold fst4 in *.
+      destruct (term_draw W H fails (tt_adjust_clear tg (ms_zombie_lines m)) [] c) as [[[tg2 e] c'] ok].
+      cbn [fst ms_target set_ms_target set_ms_zombie_lines target_n] in *. exact Tn.
+    - unfold fst4; cbn [fst]. now rewrite Ht.
+  Qed.
+
+  (** MultiState::draw: a refused draw carries no text lines (has_text_forced), so LineAdjust::Clear has
+      not inflated the count; an attempted draw ends in [term_draw] (<= H, failed or not), Keep only
+      lowers the count *)
+  Lemma ms_draw_le_f m force extra now c : act_wf (ADraw force extra) -> target_n (ms_target m) <= H ->
+    target_n (ms_target (fst4 (ms_draw W H fails m force extra now c))) <= H.
+  Proof.
+    intros Hwf Hinv. destruct (ms_target m) as [|tg|i] eqn:Ht.
+    - rewrite ms_draw_hidden by (rewrite Ht; discriminate). unfold fst4; cbn [fst]. now rewrite Ht.
+    - rewrite (ms_draw_unfold W H fails m force extra now c tg Ht). cbn zeta.
+      set (ht := ms_has_text m extra) in *.
+      set (tg1 := if ht then tt_adjust_clear tg (ms_zombie_lines m) else tg).
+      set (fo := force || (0 <? visual_line_count (ms_orphans m) W)).
+      destruct (tt_allow_fields tg1 fo now) as (En & Eb & Ea).
+      destruct (fst (tt_allow tg1 fo now)) eqn:Eal; cbn [negb fst snd].
+      + match goal with |- context [term_draw W H fails ?t ?l c] =>
+          pose proof (term_draw_le_f t l c) as Tn; set (td := term_draw W H fails t l c) in * end.
+        unfold fst4 in Tn.
+        match goal with |- context [fold_left ms_remove_idx ?zs ?m0] =>
+          destruct (fold_remove_other zs m0) as (Fa & _ & _ & Ft); set (m2 := fold_left ms_remove_idx zs m0) in * end.
+        cbn [ms_target ms_align set_ms_target set_ms_zombie_lines set_ms_orphans] in Fa, Ft.
+        unfold fst4. destruct ht; cbn [fst].
+        * rewrite Ft. cbn [target_n]. exact Tn.
+        * cbn [ms_target set_ms_target set_ms_zombie_lines]. rewrite Ft.
+          cbn [target_adjust_keep target_n tt_adjust_keep tt_n]. lia.
+      + unfold fst4; cbn [fst]. cbn [ms_target set_ms_target set_ms_zombie_lines target_n].
+        assert (Hht : ht = false).
+        { destruct ht eqn:Eht; [|reflexivity]. exfalso.
+          assert (Hfo : fo = true) by (apply (has_text_forced W m force extra); assumption).
+          unfold tt_allow in Eal. rewrite Hfo in Eal. cbn in Eal. discriminate. }
+        rewrite En. unfold tg1. rewrite Hht. cbn [target_n] in Hinv. exact Hinv.
+    - rewrite ms_draw_hidden by (rewrite Ht; discriminate). unfold fst4; cbn [fst]. now rewrite Ht.
+  Qed.
+
+  Lemma ms_suspend_le_f m ws now c : target_n (ms_target m) <= H ->
+    target_n (ms_target (fst (fst (ms_suspend W H fails m ws now c)))) <= H.
+  Proof.
+    intros Hinv. unfold ms_suspend.
+    pose proof (ms_clear_le_f m c Hinv) as Hcl. unfold fst4 in Hcl.
+    destruct (ms_clear W H fails m c) as [[[m1 e1] c1] ok1]. cbn [fst] in Hcl.
+    set (m1' := set_ms_target m1 _).
+    destruct (emit_each fails c1 (map TLine ws)) as [e2 c2].
+    assert (H1 : target_n (ms_target m1') <= H).
+    { unfold m1'. cbn [ms_target set_ms_target]. destruct (ms_target m1); cbn [target_n tt_n]; lia. }
+    pose proof (ms_draw_le_f m1' true None now c2 I H1) as Hd. unfold fst4 in Hd.
+    destruct (ms_draw W H fails m1' true None now c2) as [[[m3 e3] c3] ok3]. cbn [fst] in *. exact Hd.
+  Qed.
 
   Lemma act_le_H now m c a : act_wf a -> target_n (ms_target m) <= H ->
-    target_n (ms_target (fst4 (mp_exec1 W H nofail now m c a))) <= H.
+    target_n (ms_target (fst4 (mp_exec1 W H fails now m c a))) <= H.
   Proof.
     intros Hwf Hinv. destruct a as [idx texts bars|force extra| |ws|idx|loc|idx|al|ws]; cbn [mp_exec1].
     - unfold fst4; cbn. exact Hinv.
-    - destruct (ms_draw_rows W H m force extra now c Hwf) as (Hno & Hyes).
-      destruct (ms_attempt W m force extra now).
-      + now destruct (Hyes eq_refl).
-      + destruct (Hno eq_refl) as (-> & _). exact Hinv.
-    - apply ms_clear_le. exact Hinv.
-    - destruct (ms_suspend_rows W H m ws now c) as (Hs & _).
-      destruct (ms_suspend W H nofail m ws now c) as [[m' e] c']. unfold fst4; cbn [fst] in *. exact Hs.
+    - apply ms_draw_le_f; assumption.
+    - apply ms_clear_le_f. exact Hinv.
+    - pose proof (ms_suspend_le_f m ws now c Hinv) as Hs.
+      destruct (ms_suspend W H fails m ws now c) as [[m' e] c']. unfold fst4; cbn [fst] in *. exact Hs.
     - unfold fst4; cbn [fst]. destruct (remove_idx_other m idx) as (_ & _ & _ & ->). exact Hinv.
     - unfold fst4; cbn [fst]. destruct (ms_insert m loc) as [[m1 i]|] eqn:Ei; [|exact Hinv].
       destruct (ms_insert_target m loc m1 i Ei) as (-> & _). exact Hinv.
     - unfold fst4; cbn [fst]. destruct (ms_mark_target W m idx) as (Hle & _). lia.
     - unfold fst4; cbn. exact Hinv.
-    - destruct (emit_each nofail c (map TLine ws)) as [e c']. unfold fst4; cbn. exact Hinv.
+    - destruct (emit_each fails c (map TLine ws)) as [e c']. unfold fst4; cbn. exact Hinv.
   Qed.
 
   Lemma mp_run_le_H now acts : forall m c, Forall act_wf acts -> target_n (ms_target m) <= H ->
-    target_n (ms_target (fst (fst (mp_run W H nofail now m c acts)))) <= H.
+    target_n (ms_target (fst (fst (mp_run W H fails now m c acts)))) <= H.
   Proof.
     induction acts as [|a r IH]; intros m c Hwf Hinv; cbn [mp_run]; [exact Hinv|].
     inversion Hwf as [|x y Ha Hr]; subst.
     pose proof (act_le_H now m c a Ha Hinv) as Hb. unfold fst4 in Hb.
-    destruct (mp_exec1 W H nofail now m c a) as [[[m1 e1] c1] ok1]. cbn [fst] in Hb.
+    destruct (mp_exec1 W H fails now m c a) as [[[m1 e1] c1] ok1]. cbn [fst] in Hb.
     specialize (IH m1 c1 Hr Hb).
-    destruct (mp_run W H nofail now m1 c1 r) as [[m2 e2] c2]. exact IH.
+    destruct (mp_run W H fails now m1 c1 r) as [[m2 e2] c2]. exact IH.
   Qed.
 
   Lemma step_le_H s now o : target_n (ms_target (s_mp s)) <= H ->
-    target_n (ms_target (s_mp (step_sys W H nofail s now o))) <= H.
+    target_n (ms_target (s_mp (step_sys W H fails s now o))) <= H.
   Proof.
-    intros Hinv. destruct (step_mp W H nofail s now o) as [E _]. cbn [fst] in E. rewrite E.
+    intros Hinv. destruct (step_mp W H fails s now o) as [E _]. cbn [fst] in E. rewrite E.
     apply mp_run_le_H; [|exact Hinv].
     eapply Forall_impl; [|apply (op_actions_ok W false s now o); discriminate]. intros a [Ha _]. exact Ha.
   Qed.
 
   (** C19 (c) for MultiProgress, every history of public calls (valid or not), ANY alignment and
-      any alignment changes, no I/O failures: after every call last_line_count <= H *)
+      any alignment changes, ANY fault oracle (every terminal call may fail or not): after every call
+      last_line_count <= H *)
   Theorem multi_rows_le_H : forall ops s, target_n (ms_target (s_mp s)) <= H ->
-    target_n (ms_target (s_mp (run W H nofail s ops))) <= H.
+    target_n (ms_target (s_mp (run W H fails s ops))) <= H.
   Proof.
     induction ops as [|[now o] r IH]; intros s Hinv; cbn [run]; [exact Hinv|].
     apply IH. apply step_le_H. exact Hinv.
